@@ -133,7 +133,16 @@ var anchorFiles = map[string][]string{
 	"C20": {"server/loop.go", "server.go"},
 }
 
+// Properties whose statement is about ordering, limits, cancellation targets,
+// push semantics or channel discipline do not say anything about panics: a
+// panicking run is not judged by their checks (C08, C01, C04, C05 and the
+// composite checks report server/client panics).
+var noPanicClause = map[string]bool{"C03": true, "C06": true, "C07": true, "C09": true, "C10": true}
+
 func panicConcerns(prop, stack string) bool {
+	if noPanicClause[prop] {
+		return false
+	}
 	files, ok := anchorFiles[prop]
 	if !ok {
 		return true
